@@ -411,7 +411,7 @@ def tokenizer_outcome(data: bytes):
 
 
 # ----------------------------------------------------------------------------- lxml recovery mode only
-LEAF_TEXT = re.compile(rb">([^<>&]+)</")
+LEAF_TEXT = re.compile(rb">([^<>]+)</")
 
 
 def lxml_only_faults(rng, xml: bytes):
